@@ -38,6 +38,9 @@ def run(ctx: Ctx):
     from .common import generic_lints
 
     generic_lints(ctx)
+    from .common import dependency_footprints
+
+    dependency_footprints(ctx)
 
 
 class _Sub(ast.NodeTransformer):
